@@ -28,7 +28,8 @@ for pid, d in props.items():
         level_claimed=dict(category="proof",
                            text=d.get("level_text") or "every obligation generated from the contracts on the real function bodies is discharged by the verifier for all inputs and iterations (Verus: f64 as reals; Kani: bit-precise, loop-free/full-domain); clauses listed under not_claimed in the evidence are not covered",
                            design_ref="DESIGN.md section 4, " + pid),
-        level_note=d.get("level_note") or ("assumed: " + "; ".join(d.get("assumptions", []))[:900]),
+        level_note=d.get("level_note") or (("assumed: " + "; ".join(map(str, d.get("assumptions", []))))[:1200] +
+                                           (" || clauses of the property NOT claimed: " + "; ".join(map(str, d.get("not_claimed", []))))[:1500]),
         technique=tech))
 m = dict(
     version=1,
